@@ -158,9 +158,11 @@ class BorrowedResources(BaseResources[T]):
 
     def __return_resources__(self):
         """Return the debits to the parent if the current activity may not wait"""
-        __USIM_STATE__.loop.schedule(
-            self._resources.__insert_resources__(self._debits)
-        )
+        # This must take effect right away: the interrupt that brought us here goes
+        # on to whatever encloses us - if that is the block our parent was borrowed
+        # in, it takes back the parent's full amount in this very turn.
+        available = self._resources._available
+        available.__change__(available.value + self._debits)
 
     def borrow(self, **amounts: T) -> 'BorrowedResources[T]':
         borrowing = super().borrow(**amounts)
